@@ -3,19 +3,20 @@
 # runs the quick check against it, reverts, and prints one line per seeded change.
 R=${VERIF_REPO:?set VERIF_REPO to a scratch worktree of /repo}; [ "$R" = /repo ] && { echo "refusing to touch /repo"; exit 2; }
 export VERIF_REPO=$R
+V=${VERIF_DIR:-/verif}   # a snapshot of /verif may be evaluated while /verif itself is being edited
 cd $R || exit 2
 git checkout -q -- . ; git clean -fdq
 for ID in "$@"; do
-  cp /verif/evidence/$ID.json /var/tmp/evidence-$ID.bak 2>/dev/null
-  for d in /verif/seeded/$ID/${PATTERN:-*}/patch.diff; do
+  cp $V/evidence/$ID.json /var/tmp/evidence-$ID.bak 2>/dev/null
+  for d in $V/seeded/$ID/${PATTERN:-*}/patch.diff; do
     n=$(basename $(dirname $d))
     if ! git apply --check $d 2>/dev/null; then echo "$ID $n: DOES-NOT-APPLY"; continue; fi
     git apply $d
-    out=$(cd /verif && VERIF_SCRATCH=/var/tmp/verif.seeded.$ID.$$ ./bin/verifctl check $ID 2>&1); rc=$?
+    out=$(cd $V && VERIF_SCRATCH=/var/tmp/verif.seeded.$ID.$$ ./bin/verifctl check $ID 2>&1); rc=$?
     git checkout -q -- . ; git clean -fdq
     cls=$(echo "$out" | grep "class=" | sed 's/.*class=\([^ ]*\).*/\1/' | sort | uniq -c | sort -rn | awk '{printf "%s(%s) ", $2, $1}')
     echo "$ID $n: exit=$rc $cls"
     [ $rc -eq 2 ] && echo "$out" | tail -5
   done
-  cp /var/tmp/evidence-$ID.bak /verif/evidence/$ID.json 2>/dev/null
+  cp /var/tmp/evidence-$ID.bak $V/evidence/$ID.json 2>/dev/null
 done
